@@ -11,3 +11,4 @@ def register(*props):
 import checks_sm  # noqa: E402,F401
 import checks_table  # noqa: E402,F401
 import checks_gate  # noqa: E402,F401
+import checks_conc  # noqa: E402,F401
